@@ -277,7 +277,7 @@ def check(case):
                 a_, b_ = rf_.far_field_real_ground(topo, I, kk, case['f'], float(zen[ix]), float(azi[ix]), envd['media'], circ, envd.get('radials'))
                 worst = max(worst, abs(a_ - et[ix]) / mx, abs(b_ - ep[ix]) / mx)
             horiz = any(abs((p_.e1 - p_.e0)[0]) + abs((p_.e1 - p_.e0)[1]) > 1e-6 * np.linalg.norm(p_.e1 - p_.e0) for p_ in topo.pulses)
-            if ok1 and worst <= 1e-6 and horiz and -imb <= 0.5 * app:
+            if ok1 and worst <= 1e-6 and horiz:
                 cls = ':ideal-ground-currents-with-real-ground-reflection'
         except Exception:
             pass
